@@ -161,6 +161,7 @@ class Module:
         self.const_multi = {}  # name -> [exprs] when assigned more than once
         self.imports = {}  # local name -> (module, original name)
         self.star_imports = []  # module names
+        self.ext_imports = {}  # local name -> (module outside the repository, original name or None for the module itself)
         self.parents = {}
         for node in ast.walk(self.tree):
             for ch in ast.iter_child_nodes(node):
@@ -215,6 +216,12 @@ class Module:
                         self.star_imports.append(short)
                 elif short:
                     self.imports[al.asname or al.name] = (short, al.name)
+                elif not st.level:
+                    self.ext_imports[al.asname or al.name] = (mod, al.name)   # a name of a module outside the repository
+        elif isinstance(st, ast.Import):
+            for al in st.names:
+                if not al.name.startswith(PKG):
+                    self.ext_imports[al.asname or al.name.split(".")[0]] = (al.name if al.asname else al.name.split(".")[0], None)
         elif isinstance(st, (ast.Try, ast.If)):
             # e.g. try: from buidl.cecc import * except: from buidl.pecc import *
             for sub in ast.iter_child_nodes(st):
